@@ -144,6 +144,34 @@ pub proof fn rsum_ext_add<T>(a: Seq<T>, b: Seq<T>, f: spec_fn(T) -> real, g: spe
     if a.len() > 0 { rsum_ext_add(a.drop_last(), b.drop_last(), f, g, dl); }
 }
 
+
+pub proof fn rsum_concat<T>(a: Seq<T>, b: Seq<T>, f: spec_fn(T) -> real)
+    ensures rsum(a + b, f) == rsum(a, f) + rsum(b, f)
+    decreases b.len()
+{
+    if b.len() == 0 { assert(a + b =~= a); }
+    else {
+        assert((a + b).drop_last() =~= a + b.drop_last());
+        assert((a + b).last() == b.last());
+        rsum_concat(a, b.drop_last(), f);
+    }
+}
+pub proof fn rsum_one<T>(x: T, f: spec_fn(T) -> real)
+    ensures rsum(seq![x], f) == f(x)
+{
+    assert(seq![x].drop_last() =~= Seq::<T>::empty());
+    assert(seq![x].last() == x);
+    assert(rsum(seq![x].drop_last(), f) == 0real);
+}
+pub proof fn lemma_share_bounds(a: real, q: real, t: real)
+    requires a >= 0real, 0real < q <= t
+    ensures 0real <= a * (q / t) <= a
+{
+    assert(0real < q / t <= 1real) by(nonlinear_arith) requires 0real < q <= t;
+    let r = q / t;
+    assert(0real <= a * r <= a) by(nonlinear_arith) requires a >= 0real, 0real < r <= 1real;
+}
+
 // ---------- acquisition lots ----------
 pub open spec fn lot_avail(l: AcquisitionLot) -> real { l.original_amount.v() - l.consumed.v() - l.reserved.v() - l.in_pool.v() }
 pub open spec fn lot_held(l: AcquisitionLot) -> real { l.original_amount.v() - l.consumed.v() }
@@ -337,6 +365,19 @@ pub open spec fn fc_step(fc0: Map<usize, Decimal>, fc1: Map<usize, Decimal>, txs
 pub open spec fn sdr_step(s0: Map<(int, Seq<char>), Decimal>, s1: Map<(int, Seq<char>), Decimal>, ticker: Seq<char>) -> bool {
     &&& forall|k: (int, Seq<char>)| s0.contains_key(k) ==> #[trigger] s1.contains_key(k)
     &&& forall|k: (int, Seq<char>)| k.1 != ticker && #[trigger] s1.contains_key(k) ==> s0.contains_key(k) && s1[k] == s0[k]
+}
+
+
+/// legs of one disposal appear Same Day first, then 30-day, then Section 104 (C01.cascade_order)
+pub open spec fn legs_ranked(legs: Seq<MatchResult>) -> bool {
+    forall|i: int, j: int| 0 <= i < j < legs.len() ==> rule_rank((#[trigger] legs[i]).match_detail.rule) <= rule_rank((#[trigger] legs[j]).match_detail.rule)
+}
+pub open spec fn legs_of(legs: Seq<MatchResult>, tx: GbpTransaction) -> bool {
+    forall|i: int| 0 <= i < legs.len() ==> (#[trigger] legs[i]).disposal_date == tx.date && legs[i].disposal_ticker@ == tx.ticker@
+}
+pub open spec fn held_for_sale(ledgers: Map<Seq<char>, matcher::AcquisitionLedger>, pools: Map<Seq<char>, Section104Holding>, tx: GbpTransaction) -> real {
+    (if ledgers.contains_key(tx.ticker@) { avail_on(ledgers[tx.ticker@]@, tx.date.d()) } else { 0real })
+    + (if pools.contains_key(tx.ticker@) { pools[tx.ticker@].quantity.v() } else { 0real })
 }
 
 // ---------- proceeds ----------
